@@ -155,6 +155,7 @@ Section Sim.
     - destruct set; repeat split; auto.
     - repeat split; auto.
     - repeat split; auto.
+    - repeat split; auto.
   Qed.
 End Sim.
 
